@@ -375,3 +375,88 @@ def k_history(ctx):
 PLAN["quick"]["harnesses"].append("C11.history")
 PLAN["thorough"]["harnesses"].append("C11.history")
 OUTSIDE[:] = [o for o in OUTSIDE if not o.startswith("arbitrary operation histories")] + ["operation histories longer than three steps"]
+
+
+# ---- selection by an explicit list of files (symbolic subset, possibly empty) --------------------------------
+@harness("C11.explicit-files", cases=lambda tier: ["delete", "delete-dry", "move", "copy"],
+         expect=lambda c: ["exactly-the-listed-files-are-affected"])
+def k_explicit(ctx):
+    """delete(files=L) / move(target, files=L): exactly the files of L - every subset of the five files,
+    the empty list included (which selects nothing, not everything)."""
+    what = ctx.case
+    mfs = ModelFS(ctx, max_faults=0)
+    h_src, h_dst = TokenHandler(mfs, "src"), TokenHandler(mfs, "dst")
+    src, files = _populate(ctx, mfs, h_src)
+    tmpl, namer = TARGETS["doy+end"]
+    dst = make_fileset(ctx, tmpl, mfs, handler=h_dst, name="dst")
+    before = dict(mfs.files)
+    chosen = [bool(ctx.bool("listed_%d" % i)) for i in range(len(files))]
+    as_list = bool(ctx.bool("given_as_list"))          # a list, or a tuple of FileInfo objects
+    listed = [FileInfo(f[0], [f[2], f[3]], {"sat": f[1]}) for f, c in zip(files, chosen) if c]
+    arg = listed if as_list else tuple(listed)
+    ex = ModelExecutor(ctx, horizon=0)
+    with _env(ctx, mfs, ex), contextlib.redirect_stdout(io.StringIO()):
+        try:
+            if what.startswith("delete"):
+                src.delete(dry_run=(what == "delete-dry"), files=arg, worker_type="thread")
+            else:
+                src.move(dst, files=arg, copy=(what == "copy"), worker_type="thread")
+        except F.NoFilesError:
+            pass
+    tag = "exactly-the-listed-files-are-affected"
+    for f, c in zip(files, chosen):
+        name, sat, t0, t1 = f
+        still = mfs.files.get(name) == before[name]
+        new = namer(sat, t0, t1)
+        if what == "delete":
+            ctx.check(tag, still == (not c), detail="%s listed=%r still there=%r" % (name, c, still))
+        elif what == "delete-dry":
+            ctx.check(tag, still, detail="dry run removed %s" % name)
+        else:
+            ctx.check(tag, (mfs.files.get(new) == before[name]) == c, detail="%s listed=%r target %r" % (name, c, mfs.files.get(new)))
+            ctx.check(tag, still == (what == "copy" or not c), detail="%s listed=%r original still there=%r" % (name, c, still))
+    ctx.check("unrelated-file-untouched", mfs.files.get("/src/notes.txt") == ("unrelated",))
+    ctx.check("nothing-else-created", set(mfs.files) <= set(before) | {namer(f[1], f[2], f[3]) for f in files})
+
+
+# ---- move with conversion to a (string) target that asks for compression ---------------------------------------
+@harness("C11.move-compressed-target", cases=lambda tier: ["string-gz", "string-zip", "fileset-gz", "string-plain"],
+         expect=lambda c: ["converted-files-are-stored-as-the-target-suffix-says"])
+def k_move_compressed(ctx):
+    """move(target, convert=True): the files written under the target template are compressed iff that
+    template ends in a compression suffix - also when the target is given as a path string (the target
+    fileset is then a copy of the source whose path is replaced) - and read back through the target."""
+    kind = ctx.case
+    env12 = P12._Env(ctx, max_faults=0)
+    mfs = env12.fs
+    h = TokenHandler(mfs, "h")
+    src = make_fileset(ctx, "/src/{year}/{month}/{day}/{sat}_{hour}{minute}.dat", mfs, handler=h, name="src", time_coverage="30 minutes")
+    t0 = datetime(2020, 2, 29, 12, 0)
+    name = "/src/2020/02/29/A_1200.dat"
+    mfs.files[name] = ("content", 7)
+    suffix = {"string-gz": ".gz", "string-zip": ".zip", "fileset-gz": ".gz", "string-plain": ""}[kind]
+    tmpl = "/dst/{year}{month}{day}{hour}{minute}_{sat}.bin" + suffix
+    target = make_fileset(ctx, tmpl, mfs, handler=TokenHandler(mfs, "h"), name="dst") if kind == "fileset-gz" else tmpl
+    ex = ModelExecutor(ctx, horizon=0)
+    with _env(ctx, mfs, ex), env12.patch():
+        ret = src.move(target, convert=True, worker_type="thread")
+        new = "/dst/202002291200_A.bin" + suffix
+        tag = "converted-files-are-stored-as-the-target-suffix-says"
+        stored = mfs.files.get(new)
+        ctx.check(tag, stored is not None and name not in mfs.files, detail="files: %r" % sorted(mfs.files))
+        if stored is None:
+            return
+        is_archive = isinstance(stored, tuple) and len(stored) > 0 and isinstance(stored[0], tuple) and stored[0][0] in ("gz", "zip", "bz2", "xz")
+        ctx.check(tag, is_archive == bool(suffix) and (not suffix or stored[0][0] == suffix[1:]),
+                  detail="%s holds %r" % (new, stored))
+        if isinstance(ret, F.FileSet):
+            ret.file_system = src.file_system
+            back = ret.read(F.FileInfo(new))
+            ctx.check(tag, back[0] == "data" and back[1][0] == "written-by-h" and back[1][1] == ("data", ("content", 7), ()),
+                      detail="read back %r" % (back,))
+
+
+PLAN["quick"]["harnesses"] += ["C11.explicit-files", "C11.move-compressed-target"]
+PLAN["thorough"]["harnesses"] += ["C11.explicit-files", "C11.move-compressed-target"]
+BOUNDS["explicit selection"] = "delete / dry delete / move / copy with files= every subset of the five files (given as list or tuple), the empty one included"
+BOUNDS["compressed target"] = "move(convert=True) of one file to a target given as path string (.gz, .zip, plain) or as FileSet (.gz)"
